@@ -395,7 +395,25 @@ func (req *SrvReq) Respond() {
 		return
 	}
 
-	/* remove the request and all requests flushing it */
+	if rop, ok := (req.Conn.Srv.ops).(SrvReqProcessOps); ok {
+		rop.SrvReqRespond(req)
+	} else {
+		req.PostProcess()
+	}
+
+	verifPoint("respond.post", req)
+	if (status & reqFlush) == 0 {
+		select {
+		case conn.reqout <- req:
+		case <-conn.done:
+			// the connection is gone, nobody will take the reply
+		}
+	}
+
+	verifPoint("respond.queued", req)
+
+	/* remove the request and all requests flushing it; only now, with the
+	 * reply queued, can a Tflush or a request reusing the tag miss it */
 	conn.Lock()
 	nextreq := req.prev
 	if nextreq != nil {
@@ -421,23 +439,6 @@ func (req *SrvReq) Respond() {
 	}
 	conn.Unlock()
 	verifPoint("respond.unlink", req)
-
-	if rop, ok := (req.Conn.Srv.ops).(SrvReqProcessOps); ok {
-		rop.SrvReqRespond(req)
-	} else {
-		req.PostProcess()
-	}
-
-	verifPoint("respond.post", req)
-	if (status & reqFlush) == 0 {
-		select {
-		case conn.reqout <- req:
-		case <-conn.done:
-			// the connection is gone, nobody will take the reply
-		}
-	}
-
-	verifPoint("respond.queued", req)
 
 	// process the next request with the same tag (if available)
 	if nextreq != nil {
